@@ -56,7 +56,7 @@ Section Reach.
     get_impl (runf ops) i = Some m -> g_get (i_conns m) k = Some c -> c_tbd c = false.
   Proof.
     intros Hm Hc. destruct (c_tbd c) eqn:Ht; [|reflexivity].
-    pose proof (run_winv tbl pass_fuel fuel ops _ _ Hm) as (_ & _ & Hmk).
+    pose proof (run_winv tbl pass_fuel fuel ops _ _ Hm) as (_ & _ & Hmk & _).
     pose proof (run_healthy ops) as [Hh _]. destruct (Hh _ _ Hm) as [_ Hd].
     specialize (Hmk _ _ Hc Ht). congruence.
   Qed.
